@@ -46,10 +46,19 @@ MCImportsDev == {"alias", "asfx", "arsv", "blank", "blank2"}
 MCImportsAll == {"plain", "alias", "dot", "asfx", "arsv", "blank", "blank2"}
 MCNever      == {"dot", "blank", "blank2"}
 
-C(rl, el)    == [rl |-> rl, el |-> el]
-MCCfgs       == {C("single", "single"), C("follow", "single")}
-MCCfgsAll    == {C("single", "single"), C("follow", "single"), C("single", "follow"), C("follow", "follow")}
-MCCfgsFollow == {C("follow", "single")}
+\* customisations of the root resolver struct: rf = fields added, re = embedded types + doc comment
+MCRootNone   == {}
+MCRootQ      == {"rf"}
+MCRootAll    == {"rf", "re"}
+
+C(rl, el, ab) == [rl |-> rl, el |-> el, ab |-> ab]
+MCCfgs       == {C("single", "single", "none"), C("follow", "single", "none")}
+MCCfgsAll    == {C("single", "single", "none"), C("follow", "single", "none"), C("single", "follow", "none"), C("follow", "follow", "none")}
+\* autobind lists the model output package: with ("hand") and without ("model") a hand-written model type in it
+MCCfgsAB     == {C("follow", "single", "hand"), C("single", "follow", "model")}
+MCCfgsC18    == MCCfgsAll \cup MCCfgsAB
+MCCfgsStep   == {C(rl, el, ab) : rl \in {"single", "follow"}, el \in {"single", "follow"}, ab \in {"none", "model", "hand"}}
+MCCfgsFollow == {C("follow", "single", "none")}
 MCNoDev      == {}
 MCDevWarn    == {"warnNesting"}
 MCDevSfx     == {"aliasSuffix"}
